@@ -97,8 +97,11 @@ def _name_clause(kw):
 
 def _enumerate(res, tier):
     shapes = {}
-    for name, kw, acts in families(tier):
-        r, states, init, edges = _dump("Names", _cfg(**kw))
+    from concurrent.futures import ThreadPoolExecutor
+    fams = families(tier)
+    with ThreadPoolExecutor(max_workers=len(fams)) as ex:      # the families are independent TLC runs
+        dumps = list(ex.map(lambda f: _dump("Names", _cfg(**f[1])), fams))
+    for (name, kw, acts), (r, states, init, edges) in zip(fams, dumps):
         res.add_tlc(r)
         if r.violated:
             which, r2 = _name_clause(kw)
@@ -229,13 +232,23 @@ def _random_family(res, tier, shapes):
     with common.scratch() as d:
         # TLC admits them to the family (ShapeOK) and checks the invariants on each
         per = (len(given) + 7) // 8
-        for c in range(0, len(given), per):
-            fn = os.path.join(d, "given_%d.json" % c)
-            with open(fn, "w") as f:
+        chunks = list(range(0, len(given), per))
+        fns = {}
+        for c in chunks:
+            fns[c] = os.path.join(d, "given_%d.json" % c)
+            with open(fns[c], "w") as f:
                 json.dump({"shapes": given[c:c + per]}, f)
-            r = tlc.run("NamesGiven", cfg_text=_cfg(MaxDecl=99, MaxDeclM=99, MaxMent=9, MaxSl=3, spec="SpecGiven",
-                                                    dims="{0}", types='{"B4"}'),
-                        env={"VERIF_INPUT": fn}, timeout=7200)
+
+        def _one(c):
+            return tlc.run("NamesGiven", cfg_text=_cfg(MaxDecl=99, MaxDeclM=99, MaxMent=9, MaxSl=3, spec="SpecGiven",
+                                                       dims="{0}", types='{"B4"}'),
+                           env={"VERIF_INPUT": fns[c]}, timeout=7200, workers=2)
+
+        from concurrent.futures import ThreadPoolExecutor
+        with ThreadPoolExecutor(max_workers=max(2, (os.cpu_count() or 4) // 2)) as ex:
+            runs = list(ex.map(_one, chunks))
+        for c, r in zip(chunks, runs):
+            fn = fns[c]
             res.add_tlc(r)
             if r.violated:
                 r2 = tlc.run("NamesGiven", cfg_text=_cfg(MaxDecl=99, MaxDeclM=99, MaxMent=9, MaxSl=3,
